@@ -234,3 +234,8 @@ def _forall_str2(ip, args, kw):
 @spec("values_")
 def _values(ip, args, kw):
     return ZV(L.dict_values(as_v(args[0])), "seq")
+
+
+@spec("is_str_")
+def _is_str(ip, args, kw):
+    return ZB(L.is_str(as_v(args[0])))
